@@ -164,3 +164,16 @@ Proof.
   - rewrite scan_ranges_interlaced_spec by auto. cbn [bind]. apply cut_lines_layout; auto.
   - rewrite scan_ranges_plain_spec by auto. cbn [bind]. apply cut_lines_layout; auto.
 Qed.
+
+(* every cut scan line has the byte length its pixel count prescribes, and a non-negative pixel count *)
+Lemma cut_lines_lengths w h b il data lines : 1 <= w -> 1 <= h ->
+  cut_layout (spec_layout w h b il) data = Some lines ->
+  forall l, In l lines -> length (snd l) = Z.to_nat (line_bytes b (snd (fst l))) /\ 0 <= snd (fst l).
+Proof.
+  intros Hw Hh Hcut. destruct (cut_layout_shape _ _ _ Hcut) as [Hs _]. rewrite spec_layout_pix in Hs.
+  pose proof (pix_layout_nonneg w h il Hw Hh) as P. clear Hcut. revert lines Hs.
+  induction (pix_layout w h il) as [|pn t IH]; intros lines Hs l Hl; inversion Hs as [|? l0 ? ls [Hf Hlen] Hs']; subst; [destruct Hl|].
+  destruct Hl as [<-|Hl].
+  - cbn [fst snd] in *. rewrite Hf. cbn [fst snd]. split; [exact Hlen|]. inversion P; auto.
+  - apply (IH ltac:(inversion P; auto) ls); auto.
+Qed.
